@@ -293,3 +293,54 @@ func sortedKeys[V any](m map[string]V) []string {
 	sort.Strings(ks)
 	return ks
 }
+
+// scribbleSchema writes THROUGH everything reachable from a result the package handed out earlier — pointed-to numbers, elements of
+// string slices, entries of maps, fields of the Schema objects — the way a caller customising "its own" schema does. Nothing a later
+// call returns may change because of it. dir > 0 tightens bounds, dir < 0 widens them.
+func scribbleSchema(root *jsonschema.Schema, dir float64) {
+	seen := map[*jsonschema.Schema]bool{}
+	schemaPointers(root, seen)
+	for s := range seen {
+		for _, p := range []*float64{s.Minimum, s.ExclusiveMinimum} {
+			if p != nil {
+				*p += dir * 1e6
+			}
+		}
+		for _, p := range []*float64{s.Maximum, s.ExclusiveMaximum} {
+			if p != nil {
+				*p -= dir * 1e6
+			}
+		}
+		for _, p := range []*int{s.MinItems, s.MinLength, s.MinProperties} {
+			if p != nil {
+				*p += 7
+			}
+		}
+		for _, p := range []*int{s.MaxItems, s.MaxLength, s.MaxProperties} {
+			if p != nil {
+				*p += 11
+			}
+		}
+		for i := range s.Types {
+			s.Types[i] = "boolean"
+		}
+		if cap(s.Types) > len(s.Types) {
+			_ = append(s.Types, "scribbled") // behind the length, into a shared backing array
+		}
+		for i := range s.Required {
+			s.Required[i] = "scribbled" + s.Required[i]
+		}
+		for i := range s.PropertyOrder {
+			s.PropertyOrder[i] = "scribbled" + s.PropertyOrder[i]
+		}
+		if s.Properties != nil {
+			s.Properties["scribbled"] = &jsonschema.Schema{Type: "null"}
+		}
+		if s.Type != "" {
+			s.Type = "boolean"
+		}
+		s.Description = "scribbled"
+		s.AdditionalProperties = nil
+		s.Items = &jsonschema.Schema{Not: &jsonschema.Schema{}}
+	}
+}
